@@ -175,6 +175,42 @@ func genC03(g *Rng, tier string, emit func(Op)) {
 					}
 				}
 			}
+			// a member whose challenge contribution cannot be reconstructed at all (non-unit A, a
+			// range proof without content), holding ANOTHER secret, appended to the genuine list with
+			// the genuine challenge and secret-key response copied in: nothing binds it, it must
+			// make the whole list fail
+			if pd0 := firstProofD(pl); pd0 >= 0 {
+				okp := kps[pd0]
+				other := issueCred(okp, randSecret(g), []*big.Int{g.bits(60), g.bits(60), g.bits(60)})
+				op, err := other.CreateDisclosureProof([]int{1}, nil, false, ctx, nonce)
+				if err != nil {
+					panic(err)
+				}
+				for vi, variant := range []string{"nonunit-A", "empty-rangeproof", "nonunit-A-first"} {
+					tm := proofDTree(op)
+					tm["c"] = cloneTree(trees[pd0].(T)["c"])
+					tm["a_responses"].(T)["0"] = cloneTree(trees[pd0].(T)["a_responses"].(T)["0"])
+					switch variant {
+					case "nonunit-A", "nonunit-A-first":
+						tm["A"] = I(bi(0))
+					case "empty-rangeproof":
+						tm["rangeproofs"] = T{"3": []any{T{}}}
+					}
+					t2 := append(cloneTree(any(trees)).([]any), any(tm))
+					k2 := append(append([]*KeyPair{}, kps...), okp)
+					if variant == "nonunit-A-first" {
+						t2 = append([]any{any(tm)}, cloneTree(any(trees)).([]any)...)
+						k2 = append([]*KeyPair{okp}, kps...)
+					}
+					for _, kss := range [][]string{nil, ksAll(len(t2))} {
+						o := listOp(k2, t2, ctx, nonce, false, kss, "unbound-member-"+variant, "reject")
+						o["issig"] = listIssig(pl, kps, ctx, nonce)
+						o["fkey"] = "C03/unbound-member"
+						emit(o)
+					}
+					_ = vi
+				}
+			}
 			// disclose attribute 0 outright in one member (no secret-key response left)
 			for i := 0; i < n; i++ {
 				if _, ok := pl[i].(*gabi.ProofD); !ok {
@@ -211,4 +247,64 @@ func distinctLabels(n int) []string {
 		r[i] = "l" + strconv.Itoa(i)
 	}
 	return r
+}
+
+func firstProofD(pl gabi.ProofList) int {
+	for i, p := range pl {
+		if _, ok := p.(*gabi.ProofD); ok {
+			return i
+		}
+	}
+	return -1
+}
+
+func ksAll(n int) []string {
+	l := make([]string, n)
+	for i := range l {
+		l[i] = "ks"
+	}
+	return l
+}
+
+// unboundMemberOps: a crafted ProofD (another secret, another credential) whose challenge
+// contribution cannot be reconstructed, carrying the challenge and the secret-key response of a
+// genuine member, appended to (or put in front of) a genuine list. Label: reject.
+func unboundMemberOps(g *Rng, kps []*KeyPair, trees []any, ctx, nonce *big.Int, issig bool, fkey string) []Op {
+	pd0 := -1
+	for i, t := range trees {
+		if tt, ok := t.(T); ok && tt["A"] != nil {
+			pd0 = i
+			break
+		}
+	}
+	if pd0 < 0 {
+		return nil
+	}
+	okp := kps[pd0]
+	other := issueCred(okp, randSecret(g), []*big.Int{g.bits(60), g.bits(60), g.bits(60)})
+	op, err := other.CreateDisclosureProof([]int{1}, nil, false, ctx, nonce)
+	if err != nil {
+		panic(err)
+	}
+	var ops []Op
+	for _, variant := range []string{"nonunit-A", "empty-rangeproof", "nonunit-A-first"} {
+		tm := proofDTree(op)
+		tm["c"] = cloneTree(trees[pd0].(T)["c"])
+		tm["a_responses"].(T)["0"] = cloneTree(trees[pd0].(T)["a_responses"].(T)["0"])
+		if variant == "empty-rangeproof" {
+			tm["rangeproofs"] = T{"3": []any{T{}}}
+		} else {
+			tm["A"] = I(bi(0))
+		}
+		t2 := append(cloneTree(any(trees)).([]any), any(tm))
+		k2 := append(append([]*KeyPair{}, kps...), okp)
+		if variant == "nonunit-A-first" {
+			t2 = append([]any{any(tm)}, cloneTree(any(trees)).([]any)...)
+			k2 = append([]*KeyPair{okp}, kps...)
+		}
+		o := listOp(k2, t2, ctx, nonce, issig, nil, "unbound-member-"+variant, "reject")
+		o["fkey"] = fkey
+		ops = append(ops, o)
+	}
+	return ops
 }
